@@ -446,6 +446,11 @@ pub fn exec(op: &Op) -> R {
             unsafe { &*np }.shallow.set(true);
             Ok(())
         }),
+        Op::RawRelease(o) => world::with(|w| {
+            let np = w.node_ptr(*o).ok_or("rawrelease: object not accessible")?;
+            unsafe { &*np }.raw_release.set(true);
+            Ok(())
+        }),
         Op::EscapeOwn(k) => world::with(|w| {
             let &(me, np) = w.dying_stack.last().ok_or("escapeown: not in a destructor")?;
             let node = unsafe { &*np };
@@ -911,7 +916,7 @@ fn op_touches(w: &World, op: &Op) -> Option<Vec<ObjId>> {
         Op::DropWeak(_) => {}
         Op::Script(o, _, _) => v.push(*o),
         Op::CloneDead(_) | Op::DropDead(_) | Op::DowngradeOwn(_) | Op::EscapeOwn(_) | Op::CloneLate(_) => {}
-        Op::Shallow(o) => v.push(*o),
+        Op::Shallow(o) | Op::RawRelease(o) => v.push(*o),
     }
     Some(v)
 }
